@@ -240,7 +240,11 @@ def decompose_and_order(graph, component, component_name, bo_start=0):
         inside_nodes.update(bc_inside_nodes)
 
         if len(bc_inside_nodes) == 0:
-            assert len(bc_end_nodes) == 2
+            if len(bc_end_nodes) != 2:
+                logger.warning(
+                    f"Error: In Chromosome {component_name}, a cycle of more than two scaffold nodes was found. Skipping this chromosome"
+                )
+                return None, None, None, None, None
             node1, node2 = tuple(bc_end_nodes)
             scaffold_graph.add_edge(node1, "+", node2, "+", 0)
 
